@@ -6,6 +6,7 @@ import (
 	"github.com/relex/slog-agent/base"
 	"github.com/relex/slog-agent/defs"
 	"github.com/relex/slog-agent/util"
+	"github.com/relex/slog-agent/util/vhook"
 )
 
 // outputFeeder fetches chunks to be processed from bufferer.inputChannel (the persistent queue), loads their contents
@@ -66,12 +67,15 @@ func (feeder *outputFeeder) Run() {
 	// pass chunks from input channel (maybe unloaded) to output channel (fully loaded)
 	var lastInputChunk base.LogChunk
 	for {
+		vhook.G("hb.feeder.loop")
 		chunk, ok := <-feeder.inputChannel // wait forever here
 		if !ok {
+			vhook.E("FeederEnd", "why", "closed")
 			feeder.logger.Infof("end main loop on input channel close, remaining=%d", len(feeder.inputChannel))
 			break
 		}
 
+		vhook.E("FeederPop", "id", chunk.ID, "loaded", chunk.Data != nil)
 		if chunk.Data != nil {
 			feeder.metrics.queuedChunksTransient.Dec()
 		} else {
@@ -88,12 +92,15 @@ func (feeder *outputFeeder) Run() {
 	// clean up
 	close(feeder.outputChannel)
 	feeder.outputClosed.Signal()
+	vhook.E("FeederCloseOut")
 	feeder.saveEverything(lastInputChunk)
 
 	// wait for consumers here because the callbacks depend on chunkMan/dir
 	feeder.logger.Infof("waiting for consumers: count=%d", feeder.consumerCounter.Peek())
 	feeder.consumerCounter.Wait()
+	vhook.E("FeederConsDone")
 	feeder.chunkMan.Close()
+	vhook.E("FeederStopped")
 	feeder.stopped.Signal()
 	feeder.logger.Info("ended")
 }
@@ -104,6 +111,7 @@ func (feeder *outputFeeder) Run() {
 func (feeder *outputFeeder) loadToOutput(chunk base.LogChunk) bool {
 	feeder.logger.Debugf("load chunk from queue: id=%s saved=%t", chunk.ID, chunk.Saved)
 	if !feeder.chunkMan.LoadOrDropChunk(&chunk) {
+		vhook.E("FeederLoad", "id", chunk.ID, "res", "err")
 		return true
 	}
 
@@ -115,13 +123,18 @@ func (feeder *outputFeeder) loadToOutput(chunk base.LogChunk) bool {
 			feeder.logger.Errorf("BUG: encountered zero-length chunk after processing: %s", chunk.String())
 		}
 		feeder.chunkMan.OnChunkCorrupted(chunk)
+		vhook.E("FeederLoad", "id", chunk.ID, "res", "corrupt")
 		return true
 	}
+	vhook.E("FeederLoad", "id", chunk.ID, "res", "ok")
 
+	vhook.G("hb.feeder.push")
 	select {
 	case feeder.outputChannel <- chunk: // wait forever here, this ultimately causes chunks to bufferer to be unloaded
+		vhook.E("FeederPush", "id", chunk.ID, "branch", "ok")
 		return true
 	case <-feeder.inputClosed.Channel():
+		vhook.E("FeederPush", "id", chunk.ID, "branch", "abort")
 		return false
 	}
 }
@@ -132,6 +145,7 @@ func (feeder *outputFeeder) saveEverything(lastInputChunk base.LogChunk) {
 
 	// try to save all chunks in inputChannel
 	for chunk := range feeder.inputChannel {
+		vhook.E("FeederSave", "id", chunk.ID, "phase", "in")
 		// scopelint:ignore
 		if feeder.chunkMan.UnloadOrDropChunk(&chunk) {
 			numSaved++
@@ -139,9 +153,11 @@ func (feeder *outputFeeder) saveEverything(lastInputChunk base.LogChunk) {
 			numDropped++
 		}
 	}
+	vhook.E("FeederSaveDone", "phase", "in")
 
 	// try to save the unoutputted chunk from main loop
 	if lastInputChunk.ID != "" {
+		vhook.E("FeederSave", "id", lastInputChunk.ID, "phase", "last")
 		if feeder.chunkMan.UnloadOrDropChunk(&lastInputChunk) {
 			numSaved++
 		} else {
@@ -151,6 +167,7 @@ func (feeder *outputFeeder) saveEverything(lastInputChunk base.LogChunk) {
 
 	// try to save all chunks in outputChannel (consumers already quit)
 	for chunk := range feeder.outputChannel {
+		vhook.E("FeederSave", "id", chunk.ID, "phase", "out")
 		// scopelint:ignore
 		if feeder.chunkMan.UnloadOrDropChunk(&chunk) {
 			numSaved++
